@@ -13,7 +13,7 @@ ASSUMPTIONS = [
     "histories are driven between quiescent states of the threaded system; a clock event advances the simulated clock by a symbolic delta and lets the "
     "I/O loop turn twice (two expired poll timeouts = loop periods)",
     "channel_timeout in [1,300], cleanup_interval in [1,120] and every clock step in [0,600] are symbolic integers; connection_limit 3 or 4 "
-    "(listener + wake-up pipe + 1..2 clients); one listening socket (two in the thorough tier)",
+    "(listener + wake-up pipe + 1..2 clients); one listening socket",
     "clients keep reading (an idle connection whose peer stalled with output pending is the recorded finding D10)",
 ]
 STUBS = C04.STUBS + ["the application blocks until the history says it finishes"]
@@ -22,11 +22,11 @@ EVENTS = ("connect", "request", "partial", "finish", "tick")
 
 def BOUNDS(tier):
     return ("event histories of length <= %d over %r; symbolic channel_timeout, cleanup_interval, clock steps; connection_limit in {3,4}; channel_request_lookahead in {0,1}; "
-            "schedules without pre-emption (the property is about histories; interleavings are C04/C05/C11)." % (4 if tier == "quick" else 6, EVENTS))
+            "schedules without pre-emption (the property is about histories; interleavings are C04/C05/C11)." % (4 if tier == "quick" else 5, EVENTS))
 
 
 def jobs(tier):
-    n = 4 if tier == "quick" else 6
+    n = 4 if tier == "quick" else 5
     js = []
     for limit in (3, 4):
         for second in EVENTS:
